@@ -181,10 +181,10 @@ impl Pattern {
 
         // Similarly, if we're *confident* the pattern doesn't require expansion, then we
         // know there's a single expansion (before filtering).
-        } else if !self.pieces.iter().any(|piece| {
-            matches!(piece, PatternPiece::Pattern(_))
-                && requires_expansion(piece.as_str(), self.enable_extended_globbing)
-        }) {
+        } else if !requires_expansion(
+            pattern_text(&self.pieces).as_str(),
+            self.enable_extended_globbing,
+        ) {
             let concatenated: String = self.pieces.iter().map(|piece| piece.as_str()).collect();
 
             if let Some(filter) = path_filter
@@ -257,10 +257,10 @@ impl Pattern {
         };
 
         for component in components {
-            if !component.iter().any(|piece| {
-                matches!(piece, PatternPiece::Pattern(_))
-                    && requires_expansion(piece.as_str(), self.enable_extended_globbing)
-            }) {
+            if !requires_expansion(
+                pattern_text(&component).as_str(),
+                self.enable_extended_globbing,
+            ) {
                 let flattened = component
                     .iter()
                     .map(|piece| piece.as_str())
@@ -372,28 +372,7 @@ impl Pattern {
             regex_str.push('^');
         }
 
-        let mut current_pattern = String::new();
-        for piece in &self.pieces {
-            match piece {
-                PatternPiece::Pattern(s) => {
-                    current_pattern.push_str(s);
-                }
-                PatternPiece::Literal(s) => {
-                    // Quote every character that means something to the pattern grammar.
-                    // Besides the regex-special ones these are `!` (negation, `!(`), `-`
-                    // (ranges), `@` (`@(`) and `:` (`[:class:]`); a backslash makes the
-                    // grammar take them literally, inside and outside bracket expressions.
-                    for c in s.chars() {
-                        if crate::regex::regex_char_is_special(c)
-                            || matches!(c, '!' | '-' | '@' | ':')
-                        {
-                            current_pattern.push('\\');
-                        }
-                        current_pattern.push(c);
-                    }
-                }
-            }
-        }
+        let current_pattern = pattern_text(&self.pieces);
 
         let regex_piece =
             pattern_to_regex_str(current_pattern.as_str(), self.enable_extended_globbing)?;
@@ -438,6 +417,38 @@ impl Pattern {
         let re = self.to_regex(true, true)?;
         Ok(re.is_match(value)?)
     }
+}
+
+/// Joins the pieces of a pattern into a single pattern string, quoting the characters
+/// of literal pieces so that the pattern grammar takes them literally.
+///
+/// A glob construct may be spread over several pieces (`[a"b"]` is the pieces `[a`,
+/// literal `b`, `]`), so questions about the pattern -- what it matches, whether it
+/// requires expansion -- must be asked of this joined text, not of the individual pieces.
+fn pattern_text(pieces: &[PatternPiece]) -> String {
+    let mut text = String::new();
+    for piece in pieces {
+        match piece {
+            PatternPiece::Pattern(s) => {
+                text.push_str(s);
+            }
+            PatternPiece::Literal(s) => {
+                // Quote every character that means something to the pattern grammar.
+                // Besides the regex-special ones these are `!` (negation, `!(`), `-`
+                // (ranges), `@` (`@(`) and `:` (`[:class:]`); a backslash makes the
+                // grammar take them literally, inside and outside bracket expressions.
+                for c in s.chars() {
+                    if crate::regex::regex_char_is_special(c)
+                        || matches!(c, '!' | '-' | '@' | ':')
+                    {
+                        text.push('\\');
+                    }
+                    text.push(c);
+                }
+            }
+        }
+    }
+    text
 }
 
 /// Checks whether a string contains glob metacharacters that would trigger
